@@ -106,6 +106,10 @@ func (m *Model) applyKV(o Op) Exp {
 		exp := int64(0)
 		if ex > 0 {
 			exp = newExp(o.Ts, ex)
+			if m.Policy == PolicyCompact && exp >= maxWhen {
+				m.dev("D17")
+				return Exp{R: rErr("expiration time overflow"), Class: "expiry-overflow"}
+			}
 		}
 		m.kvStore(tk, o.A[0], exp)
 		return Exp{R: rOK()}
@@ -119,6 +123,10 @@ func (m *Model) applyKV(o Op) Exp {
 		ttl, err := strconv.Atoi(o.A[0])
 		if err != nil || ttl <= 0 {
 			return Exp{R: rErr("invalid expire time")}
+		}
+		if m.Policy == PolicyCompact && newExp(o.Ts, int64(ttl)) >= maxWhen {
+			m.dev("D17")
+			return Exp{R: rErr("expiration time overflow"), Class: "expiry-overflow"}
 		}
 		m.kvStore(tk, o.A[1], newExp(o.Ts, int64(ttl)))
 		return Exp{R: rOK()}
